@@ -47,27 +47,21 @@ Theorem form_faithful_rowarrays : forall m c shape, rect c m -> (m = [] -> shape
 Proof. exact faithful_rowarrays. Qed.
 Print Assumptions form_faithful_rowarrays.
 
-(* list of row dicts keyed (0, column): any dicts whose row sums describe m (explicit zeros
-   allowed) - needs the column count from the ids and AT LEAST ONE KEY in the whole list *)
+(* list of row dicts keyed (0, column): any dicts whose row sums describe m (explicit zeros allowed,
+   dicts without any entry describe zero vectors, also when ALL are empty) - needs the column count
+   from the ids *)
 Theorem form_faithful_rowdicts : forall rows m c,
-  rect c m -> length rows = length m -> concat rows <> [] ->
+  rect c m -> length rows = length m ->
   (forall e, In e (concat rows) -> e_row e = 0 /\ e_col e < c) ->
   (forall i j, i < length m -> j < c -> row_sum (strip (nth i rows [])) j = get m i j) ->
   to_dense (InRowDicts rows) (length m, c) = ROk (length m, c, m).
 Proof. exact faithful_rowdicts_gen. Qed.
 Print Assumptions form_faithful_rowdicts.
 
-Theorem form_faithful_rowdicts_canonical : forall m c, rect c m -> has_nonzero m ->
+Theorem form_faithful_rowdicts_canonical : forall m c, rect c m ->
   to_dense (enc_rowdicts m) (length m, c) = ROk (length m, c, m).
 Proof. exact faithful_rowdicts. Qed.
 Print Assumptions form_faithful_rowdicts_canonical.
-
-(* ... and it does need a key: the all-zero matrix written as empty dicts is a ValueError,
-   not a table (finding F31) *)
-Theorem rowdicts_all_zero_refuted : exists m c, rect c m /\ m <> [] /\
-  construct default_profile (enc_rowdicts m) [1;2]%Z [7;8]%Z None None 0%Z = RErr E_VALUE.
-Proof. exists [[0;0];[0;0]]%Z, 2. split; [repeat constructor|]. split; [discriminate|vm_compute; reflexivity]. Qed.
-Print Assumptions rowdicts_all_zero_refuted.
 
 (* list of sparse rows (stored zeros dropped here; the run feeds stored zeros and unsorted rows) *)
 Theorem form_faithful_sparserows : forall m c shape, rect c m -> (m = [] -> shape = (0, c)) ->
@@ -82,13 +76,11 @@ Proof. exact faithful_sparse_gen. Qed.
 Print Assumptions form_faithful_sparse.
 
 (* ---- all forms agree ------------------------------------------------------------------------ *)
-(* with as many ids as the matrix has rows / columns, every pair of canonical encodings gives the
-   same constructor result (table or error), for every profile, id list, metadata and type;
-   the row-dict form takes part when the matrix has a non-zero cell *)
+(* with as many ids as the matrix has rows / columns, every pair of the nine canonical encodings
+   gives the same constructor result (table or error), for every profile, id list, metadata, type *)
 Theorem forms_agree : forall c m i1 i2 p oids sids omd smd ty,
   rect c m -> length oids = length m -> length sids = c ->
-  (has_nonzero m /\ In i1 (all_encodings c m) /\ In i2 (all_encodings c m)
-   \/ In i1 (encodings_shape_free c m) /\ In i2 (encodings_shape_free c m)) ->
+  In i1 (all_encodings c m) -> In i2 (all_encodings c m) ->
   construct p i1 oids sids omd smd ty = construct p i2 oids sids omd smd ty.
 Proof. exact forms_agree_lemma. Qed.
 Print Assumptions forms_agree.
@@ -115,32 +107,24 @@ Theorem malformed_rejected : forall inp oids sids omd smd ty nr nc m,
 Proof. exact malformed_rejected_lemma. Qed.
 Print Assumptions malformed_rejected.
 
-(* a metadata entry that is neither a mapping nor None: never a table (any profile), and
-   TableException under the default profile - provided some entry of that list is truthy *)
-Theorem nonmapping_rejected_partial : forall p inp oids sids omd smd ty l,
-  (omd = Some l \/ smd = Some l) -> existsb is_other l = true -> existsb (fun e => negb (falsy e)) l = true ->
+(* a metadata entry that is neither a mapping nor None - truthy or falsy ('', 0, []) - : never a
+   table (any profile), and TableException under the default profile *)
+Theorem nonmapping_rejected : forall p inp oids sids omd smd ty l,
+  (omd = Some l \/ smd = Some l) -> existsb is_other l = true ->
   (exists c, construct p inp oids sids omd smd ty = RErr c) /\
   (forall nr nc m, to_dense inp (length oids, length sids) = ROk (nr, nc, m) ->
      construct default_profile inp oids sids omd smd ty = RErr E_TABLE).
 Proof. exact nonmapping_rejected_lemma. Qed.
-Print Assumptions nonmapping_rejected_partial.
+Print Assumptions nonmapping_rejected.
 
-(* what is missing for the full statement: a list of the right length whose entries are ALL
-   falsy, e.g. ['', 0], is normalised to None before anything looks at it (finding F32) *)
-Theorem nonmapping_all_falsy_refuted : exists l,
-  existsb is_other l = true /\
-  construct default_profile (InArray 2 1 [[1];[2]]%Z) [1;2]%Z [7]%Z (Some l) None 0%Z
-  = ROk (mkT [1;2]%Z [7]%Z [[1];[2]]%Z None None 0%Z).
-Proof. exists [MdOther false (L []); MdOther false (I 0%Z)]. split; vm_compute; reflexivity. Qed.
-Print Assumptions nonmapping_all_falsy_refuted.
-
-(* the forms that carry no shape: an index beyond the id count is scipy's ValueError, not the
-   library's table error (finding F29); no table is produced *)
-Theorem coordinate_index_beyond_ids_refuted : exists es,
-  construct default_profile (InTriples es) [1;2]%Z [7]%Z None None 0%Z = RErr E_VALUE /\
-  construct default_profile (InDict es) [1;2]%Z [7]%Z None None 0%Z = RErr E_VALUE /\ E_VALUE <> E_TABLE.
-Proof. exists [(0,0,1%Z);(2,0,3%Z)]. vm_compute. repeat split; try reflexivity. discriminate. Qed.
-Print Assumptions coordinate_index_beyond_ids_refuted.
+(* the forms that carry no shape (triples, dict): "too few ids" means a coordinate beyond the id
+   count; it is the library's table error under every profile *)
+Theorem coordinate_beyond_ids_rejected : forall p es oids sids omd smd ty,
+  forallb (in_range (length oids) (length sids)) es = false ->
+  construct p (InTriples es) oids sids omd smd ty = RErr E_TABLE /\
+  construct p (InDict es) oids sids omd smd ty = RErr E_TABLE.
+Proof. exact coordinate_beyond_ids_lemma. Qed.
+Print Assumptions coordinate_beyond_ids_rejected.
 
 (* an EMPTY ndarray of any shape takes the shape of the ids: the reason why "matrix non-empty"
    is part of the property's hypothesis for the array form *)
@@ -229,8 +213,8 @@ Print Assumptions from_uc_renames_only.
 
 (* ---- non-vacuity ---------------------------------------------------------------------------- *)
 Definition ex_m : matrix := [[5;0;0;7];[0;0;0;0];[0;2;0;0]]%Z.
-Example ex_rect : rect 4 ex_m /\ has_nonzero ex_m.
-Proof. split; [repeat constructor|exists 0, 0; vm_compute; discriminate]. Qed.
+Example ex_rect : rect 4 ex_m.
+Proof. repeat constructor. Qed.
 (* a shuffled triple list with an explicit zero and a value split in two describes ex_m *)
 Example ex_represents : represents [(2,1,3%Z); (0,3,7%Z); (1,1,0%Z); (0,0,5%Z); (2,1,(-1)%Z)] 3 4 ex_m.
 Proof.
@@ -250,6 +234,14 @@ Example ex_malformed :
   construct default_profile (enc_lists ex_m) [10;20;30;40]%Z [1;2;3;4]%Z None None 0%Z = RErr E_TABLE /\
   construct default_profile (enc_sparse 4 ex_m) [10;20;30]%Z [1;2;3;4]%Z None (Some [MdNone; MdOther true (I 5%Z); MdNone; MdNone]) 0%Z
     = RErr E_TABLE.
+Proof. vm_compute. repeat split; reflexivity. Qed.
+(* the old findings F29, F31, F32 as they behave now *)
+Example ex_repaired :
+  construct default_profile (InTriples [(0,0,1%Z);(2,0,3%Z)]) [1;2]%Z [7]%Z None None 0%Z = RErr E_TABLE /\
+  construct default_profile (enc_rowdicts [[0;0];[0;0]]%Z) [1;2]%Z [7;8]%Z None None 0%Z
+    = ROk (mkT [1;2]%Z [7;8]%Z [[0;0];[0;0]]%Z None None 0%Z) /\
+  construct default_profile (InArray 2 1 [[1];[2]]%Z) [1;2]%Z [7]%Z
+            (Some [MdOther false (L []); MdOther false (I 0%Z)]) None 0%Z = RErr E_TABLE.
 Proof. vm_compute. repeat split; reflexivity. Qed.
 Example ex_adjacency :
   from_adjacency default_profile [AHeader; ARec 20 7 3; ARec 10 7 1; ARec 20 7 (-1); ARec 10 8 0]%Z
